@@ -197,8 +197,15 @@ def truefalse(ctx):
             else:
                 parts.append(x)
         conj(b)
-        has_w = any(p.get("k") == "binary" and p["op"] == "==" and {show(peel(p["l"])), show(peel(p["r"]))} == {"self.width()", "1"} for p in parts)
-        has_p = any(p.get("k") == "mcall" and p["name"] == pred and show(peel(p["recv"])) == "self.0" for p in parts)
+        def is_self_width(x):
+            x = peel(x)
+            return x.get("k") == "mcall" and x["name"] == "width" and peel(x["recv"]).get("k") == "local" and peel(x["recv"])["name"] == "self"
+
+        def is_self_0(x):
+            fp_ = field_path(x)
+            return bool(fp_) and fp_[0] == "self" and [str(y) for y in fp_[2]] == ["0"]
+        has_w = any(p.get("k") == "binary" and p["op"] == "==" and ((is_self_width(p["l"]) and peel(p["r"]).get("v") == 1) or (is_self_width(p["r"]) and peel(p["l"]).get("v") == 1)) for p in parts)
+        has_p = any(p.get("k") == "mcall" and p["name"] == pred and is_self_0(p["recv"]) for p in parts)
         ctx.inst("R12.4", "BVLitValue::" + g, has_w and has_p and len(parts) == 2, f["span"], "BVLitValue::%s must be `self.width() == 1 && self.0.%s()`: %s" % (g, pred, show(f["body"])), sample=show(f["body"]))
 
 
